@@ -69,12 +69,14 @@ Rerooted(e) == (e.op.op = "add_root" /\ e.pre.len > 0) \/ ("orphans" \in DOMAIN 
 CheckEvent(e) ==
     LET pre == ToTree(e.pre)
         post == ToTree(e.post)
-        preOK == LinksMirror(pre) /\ LeafFlags(pre)       \* the model is only evaluated on consistent pre-states
+        preOK == LinksMirror(pre) /\ LeafFlags(pre) /\ ChildAcyclic(pre)       \* the model is only evaluated on consistent pre-states
         m == Model(e, pre)
         sig == e.op.op \o "/" \o e.res
     IN
     /\ Require(~(LinksMirror(pre) /\ LeafFlags(pre)) \/ (LinksMirror(post) /\ LeafFlags(post)),
                Verdict("C12", e, "links do not mirror or leaf flag wrong after " \o e.op.op, sig \o "/links"))
+    /\ Require(~ChildAcyclic(pre) \/ ChildAcyclic(post),
+               Verdict("C12", e, "child links form a cycle after " \o e.op.op, sig \o "/cycle"))
     /\ Require(Rerooted(e) \/ ~(OneRoot(pre) /\ AllReachable(pre) /\ LenIsReachable(pre, e.pre.len))
                    \/ (OneRoot(post) /\ AllReachable(post) /\ LenIsReachable(post, e.post.len)),
                Verdict("C12", e, "stored node unreachable / len differs from reachable count after " \o e.op.op, sig \o "/reach"))
